@@ -360,10 +360,14 @@ def model_lines(root, hash_ws, rlimit, params, steps, md5):
 SIMPLE_WS = re.compile(r"\$\(([\w.-]+)\.workspace\)")      # step names may hold dots (`run.sh`)
 
 
+LAST_DECLARED = {"edges": None}       # the edges the specification declares (set by the last judged expansion)
+
+
 def expansion_monitor(params, steps, dag, hash_ws):
     """C08: the declarative expansion evaluated independently on the real graph.
     Returns (violations, judged)."""
     mon = []
+    LAST_DECLARED["edges"] = None
     keys = [p["key"] for p in params]
     nrows = len(params[0]["values"]) if params else 0
 
@@ -447,6 +451,7 @@ def expansion_monitor(params, steps, dag, hash_ws):
                 hrows = range(nrows) if used[h] else [0]
                 for r2 in hrows:
                     exp_edges.add((inst(h, r2), me))
+    LAST_DECLARED["edges"] = set(exp_edges)
     real_edges = set((p, c) for p, cs in dag.adjacency_table.items() for c in cs)
     if real_edges != exp_edges:
         mon.append(("edges", "extra %s missing %s" % (sorted(real_edges - exp_edges)[:4],
